@@ -18,7 +18,7 @@ RULE = (
     "Hypothesis-generated scheduler runs on the virtual-time loop under a controlled wall clock: start instant with "
     "microsecond resolution (biased to :00.000000 / :59.999999 / :30), horizon 3-8 (thorough: -30) virtual minutes, 1-3 "
     "sources (scripted sources with stable schedule ids; optionally the real LabelScheduleSource, in half of those cases with two one-shot entries of EQUAL content), each with 0-3 cron "
-    "schedules (minute-field variety, optional timedelta/zone offset, one malformed expression) and 0-3 one-shots "
+    "schedules (minute-field variety, optional timedelta/zone offset, one malformed expression; a third of them created through the public kicker.schedule_by_cron / schedule_by_time API, cron ones also from CronSpec objects with int and str fields) and 0-3 one-shots "
     "with T anywhere in the horizon, biased to minute boundaries +{0, 1 us, 0.5 s, 1 s, 1 s + 1 us} and to the past; "
     "entries appear / disappear at generated poll indexes (dynamic add/remove); send latencies 0-2 s (some crossing a "
     "minute boundary: 61 s); failures injected into generated subsets of get_schedules() and kick() calls. "
@@ -47,7 +47,18 @@ def cron_entry(i: int) -> Any:
                     st.fixed_dictionaries({"zone": st.sampled_from(["Asia/Kathmandu", "Europe/Berlin"])}))
     good = st.tuples(mf, rest, off).map(lambda t: {"cron": t[0] + " " + t[1], "offset": t[2]})
     bad = st.just({"cron": "*/5 * * *", "offset": None, "malformed": True})
-    return st.one_of(good, good, good, good, good, bad)
+
+    # schedules created through the public API: kicker.schedule_by_cron(source, CronSpec(...)) with int or str fields
+    def spec_entry(t: Any) -> Dict[str, Any]:
+        fields = {"minutes": t[0], "hours": t[1], "days": "*", "months": "*", "weekdays": t[2]}
+        return {"spec": fields, "cron": " ".join(str(fields[k]) for k in ("minutes", "hours", "days", "months", "weekdays")),
+                "offset": t[3], "via_api": True}
+
+    spec = st.tuples(st.one_of(st.integers(0, 59), st.sampled_from([0, 0, "*", "*/2", "0", "0-30"])),
+                     st.one_of(st.just("*"), st.just("*"), st.integers(0, 23), st.sampled_from([0, "0"])),
+                     st.one_of(st.just("*"), st.just("*"), st.integers(0, 6), st.sampled_from([0, "1-5"])), off).map(spec_entry)
+    api_str = good.map(lambda e: {**e, "via_api": True, "offset": None})   # a plain cron string carries no offset in this API
+    return st.one_of(good, good, good, good, bad, spec, spec, api_str)
 
 
 def entries() -> Any:
@@ -60,6 +71,7 @@ def entries() -> Any:
             st.tuples(st.just("edge"), st.integers(-1, 9), st.sampled_from([0, 1, SEC // 2, SEC, SEC + 1, -1])),
             st.tuples(st.just("free"), st.integers(-120 * SEC, 9 * MIN), st.just(0))),
         "naive": st.booleans(),
+        "via_api": st.sampled_from([False, False, True]),
     })
     dyn = st.tuples(st.sampled_from([0, 0, 0, 1, 2, 3]), st.sampled_from([None, None, None, 2, 4, 6]))
     return st.tuples(st.lists(st.tuples(cron_entry(0), dyn), max_size=3), st.lists(st.tuples(shot, dyn), max_size=3))
@@ -83,6 +95,8 @@ def scenario(max_h: int = 8) -> Any:
                 e["id"] = f"c{si}_{j}"
                 if kind == "label":
                     e["offset"] = None
+                    e.pop("via_api", None)
+                    e.pop("spec", None)
                     if e.get("malformed"):
                         e["cron"], e["malformed"] = "* * * * *", False
                 else:
@@ -94,6 +108,8 @@ def scenario(max_h: int = 8) -> Any:
                 e = {"id": f"o{si}_{j}", "t_off_us": t_off, "naive": s["naive"]}
                 if kind != "label":
                     e["add_at"], e["remove_at"] = a, (r if r is None or r > a else None)
+                    if s.get("via_api"):
+                        e["via_api"] = True
                 ents.append(e)
             if kind == "label" and d["dup_label"]:
                 # entries of equal content (same time, same args): distinct schedules all the same, each must be sent
@@ -175,6 +191,8 @@ def run_case(case: Dict[str, Any]) -> Outcome:
                     classes.add("cron_due_some_minutes")
                 if e.get("malformed"):
                     classes.add("malformed_cron")
+                if e.get("spec"):
+                    classes.add("cronspec_via_api")
             else:
                 T = base + e["t_off_us"]
                 # first non-failing poll that lists it with T <= next boundary + 1 s
